@@ -11,6 +11,7 @@ import (
 	"fmt"
 	"math/rand"
 	"sort"
+	"strings"
 	"sync/atomic"
 
 	"github.com/gauss-project/aurorafs/pkg/boson"
@@ -86,10 +87,16 @@ type World struct {
 
 // NewWorld builds the two nodes. capacity is the localstore capacity of the node under test.
 func NewWorld(capacity uint64, nodeOpts ...func(*mininode.Options)) (*World, error) {
-	src, err := mininode.New(mininode.Options{Name: "source", Driver: vdb.Small})
-	if err != nil {
-		return nil, err
+	// one source node per process: it only serves files, and nodes are never garbage
+	// collected (their background goroutines keep them alive), so a source per world leaks
+	if sharedSrc == nil {
+		s, err := mininode.New(mininode.Options{Name: "source", Driver: vdb.Small})
+		if err != nil {
+			return nil, err
+		}
+		sharedSrc = s
 	}
+	src := sharedSrc
 	o := mininode.Options{Name: "undertest", Capacity: capacity, Driver: vdb.Small}
 	for _, f := range nodeOpts {
 		f(&o)
@@ -98,15 +105,19 @@ func NewWorld(capacity uint64, nodeOpts ...func(*mininode.Options)) (*World, err
 	if err != nil {
 		return nil, err
 	}
-	mininode.Connect(src, n)
+	mininode.ConnectReplacing(src, n)
 	return &World{Src: src, N: n, byKey: map[string]*File{}, opts: o}, nil
 }
 
-// Close closes both nodes.
+// Close closes the node under test (the source node is shared by all worlds of the process).
 func (w *World) Close() {
 	w.N.Close()
-	w.Src.Close()
 }
+
+var (
+	sharedSrc *mininode.Node
+	fileCache = map[string]*File{} // process-wide: content key -> file (chunk sets are world independent)
+)
 
 // NewFile defines a file (blocks from the pool, last block cut to lastLen), learns its
 // chunk set from a fresh throw-away node, and uploads it to the source node.
@@ -123,8 +134,15 @@ func (w *World) NewFile(blocks []int, lastLen int) (*File, error) {
 		}
 		buf.Write(Block(b)[:n])
 	}
+	if cf, ok := fileCache[key]; ok {
+		f := *cf
+		f.ID = len(w.Files)
+		w.Files = append(w.Files, &f)
+		w.byKey[key] = &f
+		return &f, nil
+	}
 	f := &File{ID: len(w.Files), Blocks: blocks, LastLen: lastLen, Data: buf.Bytes(), Chunks: map[string]bool{}, NonData: map[string]bool{}}
-	f.Name = fmt.Sprintf("file%d.bin", f.ID)
+	f.Name = "f-" + strings.NewReplacer("[", "", "]", "", " ", "-").Replace(fmt.Sprint(blocks)) + fmt.Sprintf("-%d.bin", lastLen)
 	tmp, err := mininode.New(mininode.Options{Name: "tmp", Driver: vdb.Small})
 	if err != nil {
 		return nil, err
@@ -171,6 +189,7 @@ func (w *World) NewFile(blocks []int, lastLen int) (*File, error) {
 	}
 	w.Files = append(w.Files, f)
 	w.byKey[key] = f
+	fileCache[key] = f
 	return f, nil
 }
 
